@@ -464,6 +464,9 @@ class NormProfile(FieldProfile):
             srcs = [x for x in fields if x != s and st.h[x].fm.nvdim == 1 and st.h[x].fm.array.dtype.kind == "f" and bool((st.h[x].fm.array >= 0).all()) and ops_field.field_covers(st, {"t": "field", "src": x}, h.box.v)] if cfg.get("norm_fields") else []
             if srcs and rng.random() < 0.5:
                 return {"op": "F.setnorm", "on": s, "spec": {"t": "field", "src": rng.choice(srcs)}}
+            if rng.random() < 0.12:
+                st.extra.setdefault("queue2", []).append({"op": "F.setnorm", "on": s, "spec": {"t": "ownview", "c": rng.randrange(4), "squeeze": rng.random() < 0.5}})
+                return {"op": "F.absarray", "on": s}
             return {"op": "F.setnorm", "on": s, "spec": self.norm_spec(rng, h.box.v)}
         if r < 0.4 and len(fields) > 1:
             return {"op": "F.update", "on": s, "spec": {"t": "arrayof", "src": rng.choice([x for x in fields if x != s])}, "via": rng.choice(["array", "update"])}
